@@ -6,7 +6,7 @@ from ..evidence import h
 
 LEVEL = 'exploration'
 RULE = ('trained and generated rulesets (multi-digit lengths, Y, X, K, the Markov structure) x combinations of --min_length / --max_length / --terminal_set / 0-2 '
-        '--regex, with and without --copy; the real edit_rules() runs under a directory snapshot (sha256 of every file before/after) and a sys.addaudithook log of '
+        '--regex, with and without --copy, and --copy asked again for a name that already exists (the source must stay untouched whatever the tool does); the real edit_rules() runs under a directory snapshot (sha256 of every file before/after) and a sys.addaudithook log of '
         'files opened for writing / removed; the new grammar.txt must equal the original lines filtered by a reference implementation of the three predicates on '
         'independently tokenised labels (order and probability text byte-identical); every non-Markov guess of the edited ruleset must respect the bounds. '
         'non-trivial = filter that removes some but not all structures; distinct by (ruleset hash, options)')
@@ -99,6 +99,8 @@ def gen_case(rng):
     if rng.random() < 0.4:
         opts['regex'] = rng.sample(['A', 'D', '^A', 'D[0-9]+$', '[OK]', 'A[0-9]+D', '^[^M]', 'Y1|X1', '^M$|A', r'^A\d+', r'\d\d', r'^(?!.*\d\d)', r'[A-Z]\d$', r'^\w+$', r'\D1', r'(?i)^a', r'^[ad0-9]+$'], rng.randint(1, 2))
     base.update({'opts': opts, 'copy': rng.random() < 0.5, 'hseed': rng.getrandbits(32)})
+    # history: the same --copy name asked for again (re-run of the command, or a second tuning of the copy) with a filter that would remove something
+    base['again'] = rng.choice([None, None, {'max_length': rng.choice([4, 6, 8])}, {'min_length': rng.choice([3, 5])}, {'terminal_set': rng.sample(list('ADOKYX'), 2)}, {'regex': ['^A']}, dict(opts)])
     return base
 
 def check_case(run, case, use_cli=False):
@@ -203,6 +205,44 @@ def check_case(run, case, use_cli=False):
                     if mech is None:
                         return
                 run.ev('guess_length_checks')
+        # ---- history: --copy into a name that already exists.  Whatever the tool does then (today: it aborts with FileExistsError), the source stays untouched
+        if case['copy'] and case.get('again'):
+            o2 = case['again']
+            if use_cli:
+                args = ['-r', name, '--copy', copyname]
+                if 'min_length' in o2 or 'max_length' in o2:
+                    args += ['--min_length', str(o2.get('min_length', 0)), '--max_length', str(o2.get('max_length', 0))]
+                if o2.get('terminal_set'):
+                    args += ['--terminal_set', ','.join(x.lower() for x in o2['terminal_set'])]
+                if o2.get('regex'):
+                    args += ['--regex', ','.join(o2['regex'])]
+                out, err, rc, to = cli.run_cli('edit_rules.py', args, stdin_mode='devnull')
+                run.ev('cli_runs')
+                outcome = f'rc {rc}'
+            else:
+                cfg = {'rule': name, 'copy': copyname, 'rules_dir': rules_dir, 'min_length': o2.get('min_length', 0), 'max_length': o2.get('max_length', 0),
+                       'terminal_set': o2.get('terminal_set') or False}
+                if o2.get('regex'):
+                    cfg['regex'] = list(o2['regex'])
+                AUDIT['log'] = []; AUDIT['on'] = True
+                outcome = 'returned'
+                try:
+                    with contextlib.redirect_stdout(io.StringIO()):
+                        er.edit_rules(cfg)
+                except Exception as e:
+                    outcome = type(e).__name__
+                finally:
+                    AUDIT['on'] = False
+                for kind, p in AUDIT['log']:
+                    ap = os.path.abspath(p)
+                    if kind != 'shutil.copytree' and (ap + os.sep).startswith(os.path.abspath(path) + os.sep):
+                        run.violation(f'--copy into an existing name ({outcome}): edit_rules performed {kind} on the source ruleset: {ap}', case, observed=AUDIT['log'][:8]); return
+            run.ev('copy_exists_runs')
+            run.add_to_set('copy_exists_outcomes', outcome)
+            again_src = snapshot(path)
+            if again_src != before:
+                run.violation(f'--copy into an existing name ({outcome}, options {o2}): the source ruleset was modified', case,
+                              observed=sorted(k for k in set(before) | set(again_src) if before.get(k) != again_src.get(k))); return
         removed = len(orig_lines) - len(new_lines)
         run.case(h([case.get('spec', case.get('train')), opts, case['copy']]) if 0 < removed < len(orig_lines) else None)
         run.sample({'kind': case['kind'], 'opts': opts, 'copy': case['copy'], 'before': [s for s, p in orig_lines][:8], 'after': [s for s, p in new_lines][:8],
@@ -212,7 +252,7 @@ def check_case(run, case, use_cli=False):
         repo.drop_rules(copyname)
 
 def run(run, rng):
-    run.required_events = ['edits', 'lists_compared', 'guess_length_checks', 'audit_events', 'cli_runs']
+    run.required_events = ['edits', 'lists_compared', 'guess_length_checks', 'audit_events', 'cli_runs', 'copy_exists_runs']
     run.min_distinct = 10
     run.assumptions = ['label lengths <= 999 (the tool tokenises with [A-Z][0-9]{0,3})', 'the Markov structure has no fixed length: a length filter keeps it',
                        'a context (X) segment counts 2 characters against --min_length and 4 against --max_length (every guess of a surviving structure must respect the bounds)',
